@@ -153,6 +153,9 @@ class History:
         rng = self.rng
         mine = self.out.get(sid, {}) if sid else {}
         r = rng.random()
+        if r > 0.96:
+            # an acknowledgement that carries no id at all
+            return None, 'noid'
         if mine and r < 0.4:
             return rng.choice(sorted(mine)), 'correct'
         if r < 0.5 and sid and self.used.get(sid):
@@ -223,7 +226,8 @@ class History:
             ns = rng.choice(NAMESPACES)
         sid = self.conn.get((T, ns))
         aid, cls = self.pick_ack_id(sid, T, ns)
-        if self.cfg['serializer'] == 'msgpack' and aid >= 2**63:
+        if self.cfg['serializer'] == 'msgpack' and aid is not None and \
+                aid >= 2**63:
             aid = 2**62
         args = gen.gen_args(rng, True, 3, maxn=3)
         op = ['ack', T, ns, aid, args]
@@ -681,7 +685,8 @@ def run(ctx):
     ctx.require('refused_with_callback_outstanding', 5)
     ctx.require('duplicate_ack_races_2_frames', 2)
     ctx.require('acks_with_raising_callback', 5)
-    for cls in ('correct', 'duplicate', 'zero', 'foreign', 'never_issued'):
+    for cls in ('correct', 'duplicate', 'zero', 'foreign', 'never_issued',
+                'noid'):
         ctx.require('acks_' + cls, 3)
     k = 0
     while not ctx.out_of_time() and not ctx.too_many_violations():
